@@ -231,9 +231,18 @@ def run(ctx):
                 if not any((ft[1], ft[2]) == (expect_outlier[1], expect_outlier[2]) for ft in sec["outlying"]):
                     dd.append("the excluded %s %s->%s is not listed under 'Outlying absolute terms'" % expect_outlier)
             if dd:
-                bad += 1
-                ctx.violation({"kind": "E:exclusion", "gkf": txt1, "gkf_deleted": txt2, "what": what, "algorithm": a, "tol_abs": tol_abs, "differences": dd[:6]},
-                              "%s (%s, tol-abs %g): %s" % (what, a, tol_abs, dd[0]))
+                key = None
+                m_ = re.match(r"blunder ([0-9.]+) x tol-abs on (direction|angle|z-angle|azimuth) \(stdev ([0-9.e+-]+)\)", what)
+                if m_ and k1 != k2:
+                    f_, sd_ = float(m_.group(1)), float(m_.group(3))
+                    scaled = f_ * net["params"]["sigma-apr"] / sd_
+                    impl_excluded = len(k1) < sum(len(c["obs"]) for c in net["clusters"])
+                    # the recorded finding: the threshold is applied to the weight-scaled absolute term
+                    if abs(sd_ - net["params"]["sigma-apr"]) > 1e-9 and impl_excluded == (scaled > 1.0) and abs(scaled - 1.0) > 0.02:
+                        key = "C14:abs-term-weight-scaled"
+                if ctx.violation({"kind": "E:exclusion", "gkf": txt1, "gkf_deleted": txt2, "what": what, "algorithm": a, "tol_abs": tol_abs, "differences": dd[:6]},
+                                 "%s (%s, tol-abs %g): %s" % (what, a, tol_abs, dd[0]), key=key):
+                    bad += 1
                 break
         if bad >= 4:
             break
